@@ -331,7 +331,15 @@ mod search {
             return Ok(());
         }
         let Some(c1) = c1 else {
-            return if want_end == Obs::default() { Ok(()) } else { Err(format!("{tag}: no cookie although the request ended with {want_end:?}")) };
+            if want_end != Obs::default() { return Err(format!("{tag}: no cookie although the request ended with {want_end:?}")); }
+            // no Set-Cookie: the browser keeps presenting the cookie it already has — the next request must still observe
+            // what this one ended with (nothing), not what the stale cookie carries
+            if let Some(old) = old_cookie {
+                let s = Session::new(&store, &config, Some(incoming(&old)));
+                let seen = observe(&s).await;
+                if seen != want_end { return Err(format!("{tag}: the response carried no session cookie, so the browser keeps the previous one, and the next request observes {seen:?} although this one ended with {want_end:?}")); }
+            }
+            return Ok(());
         };
         if c1.value().is_empty() { return Err(format!("{tag}: a removal cookie was returned although the session was not invalidated (the statement says it ends with {want_end:?})")); }
         // request 2: must observe exactly what request 1 ended with — unless the policy rejects a record-less session
@@ -516,6 +524,45 @@ mod pipeline {
         }
     }
 
+    /// Probe of the ASSUMED contract "what `will_encrypt` / `will_sign` promise for a name is what happens to the cookie of
+    /// that name": for a session cookie name that percent-encoding changes, biscotti 0.4.3 looks the crypto rule up under
+    /// the ENCODED name when the cookie goes out (`process_outgoing`) but under the raw name in `will_*` — the middleware is
+    /// told "will be encrypted" and the cookie leaves in clear. Reported as a NAMED deviation (known_findings.json); a name
+    /// that encoding leaves alone must be protected, and any other outcome than {request fails, protected, this deviation} fails.
+    #[tokio::test]
+    async fn a_cookie_the_processor_promised_to_protect_is_protected_on_the_wire_whatever_its_name() {
+        for name in ["sid", "__Host-session", "my session", "s;id", "sïd", "a=b", "per%cent"] {
+            for algorithm in [CryptoAlgorithm::Encryption, CryptoAlgorithm::Signing] {
+                let store = SessionStore::new(InMemorySessionStore::new());
+                let mut config = SessionConfig::default();
+                config.cookie.name = name.to_string();
+                let p = processor(name, Some(algorithm));
+                let mut s = Session::new(&store, &config, None);
+                s.insert("srv", "server-secret-value").await.unwrap();
+                let with_client = matches!(algorithm, CryptoAlgorithm::Encryption);
+                if with_client { s.client_mut().insert("cli", "client-secret-value").unwrap(); }
+                let mut jar = ResponseCookies::new();
+                match finalize_session(Response::ok(), &mut jar, &p, s).await {
+                    Err(_) => assert_eq!(jar.iter().count(), 0, "name {name:?}: the request failed but a cookie was set"),
+                    Ok(_) => {
+                        let headers: Vec<String> = jar.header_values(&p).collect();
+                        assert_eq!(headers.len(), 1);
+                        let h = &headers[0];
+                        // in clear, the value is the percent-encoded JSON `{"0":"<uuid>"..}`; a signed value carries the JSON base64-encoded after the tag
+                        let in_clear = h.contains("%7B%220%22%3A%22") || h.contains("{\"0\":\"") || h.contains("client-secret-value");
+                        let name_needs_encoding = pavex::cookie::ResponseCookie::new(name.to_string(), "").to_string().split('=').next() != Some(name)
+                            || name.chars().any(|c| !c.is_ascii_alphanumeric() && !"-_.".contains(c));
+                        if in_clear && name_needs_encoding {
+                            println!("VERIF-DEVIATION id=cookie_name_changed_by_percent_encoding_is_sent_unprotected @C12 session cookie name {name:?} with a {algorithm:?} rule for exactly that name: will_encrypt={} will_sign={}, finalize_session attached the cookie, and it left as {h:?}", p.will_encrypt(name), p.will_sign(name));
+                        } else {
+                            assert!(!in_clear, "name {name:?} ({algorithm:?}): the middleware attached the cookie because the processor promised to protect it, and it left in clear: {h}");
+                        }
+                    }
+                }
+            }
+        }
+    }
+
     #[tokio::test]
     async fn protection_matrix_of_the_middleware() {
         // (processor, client state non-empty?) -> must the middleware accept?
@@ -567,6 +614,17 @@ mod pipeline {
             let id = incoming_id(&c);
             assert_eq!((c.name(), c.domain(), c.path(), c.same_site()), ("sid", domain, path, same_site));
             assert_eq!((c.secure().unwrap_or(false), c.http_only().unwrap_or(false), c.max_age().is_some()), (secure, http_only, kind == SessionCookieKind::Persistent));
+            // max-age is the CONFIGURED ttl, exactly — also for a request that only reads a state loaded from the store
+            let want_max_age = pavex::time::SignedDuration::try_from(config.state.ttl).unwrap();
+            if kind == SessionCookieKind::Persistent { assert_eq!(c.max_age(), Some(want_max_age), "max-age of a new session"); }
+            for touch in ["read", "write", "nothing"] {
+                let mut s3 = Session::new(&store, &config, Some(incoming(&c)));
+                if touch == "read" { let _ = s3.get_raw("k").await.unwrap(); }
+                if touch == "write" { s3.insert("other", 1).await.unwrap(); }
+                let c3 = s3.finalize().await.unwrap().expect("cookie");
+                assert_eq!(c3.max_age(), if kind == SessionCookieKind::Persistent { Some(want_max_age) } else { None }, "max-age after a request that did: {touch}");
+                assert_eq!((c3.name(), c3.domain(), c3.path(), c3.same_site(), c3.secure().unwrap_or(false), c3.http_only().unwrap_or(false)), ("sid", domain, path, same_site, secure, http_only), "attributes after a request that did: {touch}");
+            }
             // the removal cookie targets the same (name, domain, path); Debug never shows the id in any state
             let mut s2 = Session::new(&store, &config, Some(incoming(&c)));
             let shows = |s: &Session<'_>| { let d = format!("{s:?}"); d.contains(&id) || d.contains(&id.replace('-', "")) };
